@@ -53,33 +53,45 @@ Fixpoint pops (cur : cursors) (orders : list eplist) (ok : Z -> bool) : cursors 
 (* ---- histories for the correspondence: readiness changes, server-set changes, forced cursor ---- *)
 Inductive cop :=
 | OPick (ups : eplist)                 (* one request: picker with this upstream list, then Pop *)
-| OReady (e : Z) (b : bool)            (* health / disabled flag of an endpoint changes *)
-| OServers (es : eplist)               (* Sync with this server set: reset cursors iff the set changes;
-                                          new endpoints start unhealthy *)
+| OReady (e : Z) (b : bool)            (* health of an endpoint changes (probe result) *)
+| OServers (es ds : eplist)            (* ClusterInfo.Sync with server list [es], of which [ds] carry disabled=true
+                                          (anything else in the object - flow control, logging, policies of other
+                                          names - does not reach syncEndpoints).  The cursors are reset iff a server
+                                          is ADDED or REMOVED; new endpoints start unhealthy; the disabled flag of
+                                          every listed endpoint is set to what the spec says. *)
 | OCursor (key : eplist) (v : Z).      (* harness only: force a cursor (to reach the uint64 wrap) *)
 
-Record cstate := { servers : eplist; readyset : eplist; curs : cursors }.
+(* [readyset] = endpoints whose last probe was healthy; [disabled] = endpoints with disabled=true *)
+Record cstate := { servers : eplist; readyset : eplist; disabled : eplist; curs : cursors }.
 
 Definition zin (x : Z) (l : eplist) : bool := existsb (Z.eqb x) l.
 Definition subset (a b : eplist) : bool := forallb (fun x => zin x b) a.
 Definition same_set (a b : eplist) : bool := subset a b && subset b a.
 
-Definition is_ok (s : cstate) (e : Z) : bool := zin e (servers s) && zin e (readyset s).
+(* EndpointInfo.IsReady: !Disabled && Healthy (and the endpoint exists and is not stopped) *)
+Definition is_ok (s : cstate) (e : Z) : bool :=
+  zin e (servers s) && zin e (readyset s) && negb (zin e (disabled s)).
 
 Definition cstep (s : cstate) (o : cop) : cstate * pres :=
   match o with
   | OPick ups => let '(c, p) := pop (curs s) ups (is_ok s) in
-                 ({| servers := servers s; readyset := readyset s; curs := c |}, p)
+                 ({| servers := servers s; readyset := readyset s; disabled := disabled s; curs := c |}, p)
   | OReady e b =>
       if negb (zin e (servers s)) then (s, PErr) else     (* no such endpoint: nothing happens *)
       ({| servers := servers s;
           readyset := if b then (if zin e (readyset s) then readyset s else e :: readyset s)
                       else filter (fun x => negb (x =? e)) (readyset s);
+          disabled := disabled s;
           curs := curs s |}, PErr)
-  | OServers es =>
-      if same_set es (servers s) then (s, PErr)
-      else ({| servers := es; readyset := filter (fun x => zin x es) (readyset s); curs := [] |}, PErr)
-  | OCursor key v => ({| servers := servers s; readyset := readyset s; curs := set (curs s) key v |}, PErr)
+  | OServers es ds =>
+      if same_set es (servers s) then
+        (* added = deleted = {}: the loadbalancer map (every cursor) is KEPT, whatever else the object says *)
+        ({| servers := servers s; readyset := readyset s; disabled := ds; curs := curs s |}, PErr)
+      else
+        (* a server was added or removed: c.loadbalancer = sync.Map{} *)
+        ({| servers := es; readyset := filter (fun x => zin x es) (readyset s); disabled := ds; curs := [] |}, PErr)
+  | OCursor key v => ({| servers := servers s; readyset := readyset s; disabled := disabled s;
+                         curs := set (curs s) key v |}, PErr)
   end.
 
 Fixpoint crun (s : cstate) (ops : list cop) : list pres :=
